@@ -125,6 +125,7 @@ type Interp struct {
 	ifconvs int
 	trace    bool
 	depth    int
+	touched  map[string]bool // keys looked up in traced maps
 }
 
 type Observation struct {
